@@ -342,6 +342,9 @@ def fixed_oracle_cases():
     yield dict(name="root", readme=dict(file="README.md", title="Book", body="text", links=[("Lb", "bread", ("dir", "bread")), ("Lbm", "bread.md", ("recipe", "bread.md"))]),
                recipes=[bread], assets=[],
                subdirs=[dict(name="bread", readme=None, recipes=[rolls], subdirs=[], assets=[]),
+                        # (a sibling whose name begins with the other's name)
+                        dict(name="breads", readme=None, subdirs=[], assets=[],
+                             recipes=[dict(file="loaf.md", title="Loaf", servings=2, links=[("Lx", "../bread/rolls.md", ("recipe", "bread/rolls.md")), ("Ly", "../bread", ("dir", "bread"))])]),
                         dict(name="world", readme=None, recipes=[soup], assets=[],
                              subdirs=[dict(name="categories", readme=rd("Cats"), recipes=[pasta], subdirs=[], assets=[]),
                                       dict(name="serves2", readme=None, recipes=[rice], subdirs=[], assets=[]),
